@@ -281,6 +281,7 @@ var c02Alphabet = []string{
 	"merge new remote C active end+2", "merge batch[A newer end=now+5, B newer expired-now]",
 	"GC", "restart from snapshot", "alert-GC PostGC(X)", "Mutes(X)", "Mutes(Y)",
 	"advance 1", "advance 2", "advance to next boundary",
+	"Mutes(X) under a context that is already cancelled (an API client that went away; the answer of this call is not judged)",
 }
 
 func ts(t time.Time) *timestamppb.Timestamp { return timestamppb.New(t) }
@@ -427,6 +428,11 @@ func (y *c02Sys) apply(x int) (ok bool, viol, desc string) {
 	case 17:
 		v, d := y.checkMutes(vY, "Y")
 		return true, v, d
+	case 21:
+		ctx, cancel := context.WithCancel(marker.WithContext(context.Background(), marker.NewAlertMarker()))
+		cancel()
+		y.sl.Mutes(ctx, vX)
+		return true, "", ""
 	case 18:
 		time.Sleep(1 * vU)
 		return true, "", ""
